@@ -38,7 +38,7 @@ ASSUMPTIONS = [
   'lifted classes are created fresh per history, so trace caches never leak between histories',
   'under nn.jit RNG-derived values are only required to be a deterministic function of the call site (the property says so); they are not compared with the plain twin',
 ]
-PROBES = ['lift_jit', 'jit_methods', 'while_cond_write_raises', 'lift_jit_method', 'lift_remat', 'lift_mapv_params', 'lift_mapv_mutable', 'cond', 'switch', 'while', 'attr_changed_between_calls', 'varstruct_changed_between_calls', 'mutable_changed_between_calls', 'repeat_same_call', 'fault_inside_lifted', 'write_immutable_same_error', 'jit_rng_deterministic', 'region_jit', 'region_remat', 'cold_twin_compared']
+PROBES = ['lift_jit', 'jit_methods', 'jit_inner_method', 'while_cond_write_raises', 'lift_jit_method', 'lift_remat', 'lift_mapv_params', 'lift_mapv_mutable', 'cond', 'switch', 'while', 'attr_changed_between_calls', 'varstruct_changed_between_calls', 'mutable_changed_between_calls', 'repeat_same_call', 'fault_inside_lifted', 'write_immutable_same_error', 'jit_rng_deterministic', 'region_jit', 'region_remat', 'cold_twin_compared']
 
 CROSS_RUN_STATE = True
 
@@ -87,8 +87,33 @@ def setup_worker(w, tier):
         self.n_alt.value = self.n_alt.value + 1.0
       return x * 2.0 - self.wa + float(3 * self.k + 1) + self.n_alt.value
 
+  def make_inner(jit):
+    class KInner(nn.Module):
+      """A compact parent that creates `pre` auto-named children and then calls a helper method (plain / nn.jit) that
+      creates one more auto-named child of the same class."""
+
+      spec: str
+      pre: int = 0
+
+      def helper(self, x):
+        return KProg(spec=self.spec)(x) + 1.0
+
+      if jit:
+        helper = nn.jit(helper)
+
+      @nn.compact
+      def __call__(self, x):
+        for _ in range(self.pre):
+          x = KProg(spec=self.spec)(x)
+        return self.helper(x)
+
+    return KInner
+
   globals()['KProg'] = KProg
   globals()['KProg2'] = KProg2
+  globals()['make_inner'] = make_inner
+  globals()['KInnerPlain'] = make_inner(False)
+  P.EXT['kinner'] = ext_kinner
   P.EXT['kchild'] = ext_kchild
   P.EXT['kmeth'] = ext_kmeth
   P.EXT['cond'] = ext_cond
@@ -158,6 +183,22 @@ def ext_kchild(mod, ins, x, n, made):
     P.CTL.event('child-call')
     x = sub(x)
   return x
+
+
+def ext_kinner(mod, ins, x, n, made):
+  sub = made.get(n)
+  if sub is None:
+    pre = ins['pre']  # fixed per instruction: init and apply must see the same structure
+    if ENV.plain:
+      cls = KInnerPlain
+    else:
+      ENV.used.add('jit_inner_method')
+      cls = ENV.classes.get('jit_inner_method')
+      if cls is None:
+        cls = ENV.classes['jit_inner_method'] = make_inner(True)
+    sub = made[n] = cls(spec=P.dumps(ins['mod']), pre=pre, name=ins['name'])
+  P.CTL.event('child-call')
+  return sub(x)
 
 
 def ext_kmeth(mod, ins, x, n, made):
@@ -397,6 +438,11 @@ def generate(rs, tier):
     body.append(dict(i='region', name='rg', lift=lift, use_k=g.random() < 0.8, mod=gen_nested_sub(g, g.random() < 0.6) if g.random() < 0.6 else gen_sub(g, g.random() < 0.5)))
   if g.random() < 0.3:
     body.append(dict(i='rng', stream='dropout'))
+  if g.random() < 0.2:
+    # one or two instances of the same class with a different number of auto-named children before the jitted helper
+    pres = g.sample([0, 1, 2], g.choice([1, 2, 2]))
+    for j, pre in enumerate(pres):
+      body.append(dict(i='kinner', name=f'ki{j}', pre=pre, mod=dict(style='compact', name=None, body=[dict(i='param', name='w0', kind='bias')])))
   if g.random() < 0.22:
     body.append(dict(i='kmeth', name='km', use_k=g.random() < 0.6, seq=[g.choice(['call', 'alt']) for _ in range(g.randrange(1, 4))],
                      mod=dict(style='setup', name=None, body=[dict(i='param', name='wa', kind='bias'), dict(i='var', col='stats', name='n_alt', kind='counter')])))
@@ -405,14 +451,14 @@ def generate(rs, tier):
   jit_rng = None
   if g.random() < 0.25:
     jit_rng = dict(style='compact', name=None, body=[dict(i='kchild', name='jr', lift=g.choice(['jit', 'jit_method']), use_k=False, times=2, mod=dict(style='compact', name=None, body=[dict(i='param', name='w0', kind='bias'), dict(i='rng', stream='dropout')]))])
-  ops = [dict(op='init', seed=g.randrange(4), k=g.randrange(3), pred=True, idx=g.randrange(3), trips=g.randrange(0, 3))]
+  ops = [dict(op='init', seed=g.randrange(4), k=g.choice([0, 1, 2, 0, 1, -1, -2]), pred=True, idx=g.randrange(3), trips=g.randrange(0, 3))]
   last = None
   for _ in range(g.randrange(3, 10)):
     r = g.random()
     if last is not None and r < 0.25:
       ops.append(dict(last))  # exact repetition: cache hit
       continue
-    op = dict(op='apply', seed=g.randrange(4), k=g.randrange(3), pred=g.random() < 0.5, idx=g.randrange(3), trips=g.randrange(0, 4),
+    op = dict(op='apply', seed=g.randrange(4), k=g.choice([0, 1, 2, 0, 1, -1, -2]), pred=g.random() < 0.5, idx=g.randrange(3), trips=g.randrange(0, 4),
               mutable=gen_mut(g), vars_edit=g.choice([None, None, None, 'extra_collection', 'extra_variable']), vars=g.randrange(4))
     f = g.random()
     if f < 0.15:
@@ -420,7 +466,7 @@ def generate(rs, tier):
     elif f < 0.27:
       op['write'] = g.choice(['stats', 'cache', 'aux'])
     elif f < 0.33:
-      op = dict(op='init', seed=g.randrange(4), k=g.randrange(3), pred=g.random() < 0.5, idx=g.randrange(3), trips=g.randrange(0, 3))
+      op = dict(op='init', seed=g.randrange(4), k=g.choice([0, 1, 2, 0, 1, -1, -2]), pred=g.random() < 0.5, idx=g.randrange(3), trips=g.randrange(0, 3))
     ops.append(op)
     last = op
   return dict(engine='linenworld-twins', knobs=dict(spec=spec, jit_rng=jit_rng, batch=g.choice([1, 2]), mapv_init=g.random() < 0.1, ctl_preinit=g.random() < 0.5), ops=ops)
@@ -497,7 +543,7 @@ def _has_rng(sp):
 
 
 def has_jit(spec):
-  return any((ins['i'] == 'kchild' and ins.get('lift') in ('jit', 'jit_method')) or (ins['i'] == 'region' and ins['lift'] == 'jit') or ins['i'] == 'kmeth' for ins in spec['body'])
+  return any((ins['i'] == 'kchild' and ins.get('lift') in ('jit', 'jit_method')) or (ins['i'] == 'region' and ins['lift'] == 'jit') or ins['i'] in ('kmeth', 'kinner') for ins in spec['body'])
 
 
 def has_jit_rng_dependence(spec):
@@ -507,6 +553,8 @@ def has_jit_rng_dependence(spec):
     if ins['i'] == 'kchild' and ins.get('lift') in ('jit', 'jit_method'):
       return True
     if ins['i'] == 'region' and ins['lift'] == 'jit':
+      return True
+    if ins['i'] == 'kinner':
       return True
   return False
 
